@@ -424,6 +424,61 @@ def s_early_return_assert(c: fp.Real, xs: list[fp.Real]):
     assert len(xs) == 2
     return (xs, [x for x in xs])
 
+@fp.fpy
+def s_alias_store(xs: list[fp.Real], ys: list[fp.Real]):
+    m = [ys, ys]
+    k = m
+    k[1] = xs
+    r = m[1]
+    return (m, r, len(m[1]), k)
+
+@fp.fpy
+def s_alias_store_const(a: fp.Real):
+    m = [[1.0, 2.0], [3.0, 4.0]]
+    k = m
+    k[0] = [a]
+    return (m, k, m[0])
+
+@fp.fpy
+def s_row_alias_store(xs: list[fp.Real], ys: list[fp.Real]):
+    m = [ys, ys]
+    n = [m, m]
+    q = n[0]
+    q[1] = xs
+    p = n[1]
+    return (m, p, n)
+
+@fp.fpy
+def s_direct_store(xs: list[fp.Real], ys: list[fp.Real]):
+    m = [ys, ys]
+    m[1] = xs
+    k = m
+    return (m, k, m[1])
+
+@fp.fpy
+def s_loop_alias_store(xs: list[fp.Real], ys: list[fp.Real]):
+    m = [ys, ys]
+    k = m
+    i = 0
+    r = m[0]
+    while i < 2:
+        r = m[1]
+        k[1] = xs
+        with fp.REAL:
+            i = i + 1
+    return (m, r, k)
+
+@fp.fpy
+def h_store_row(m: list[list[fp.Real]], xs: list[fp.Real]):
+    m[0] = xs
+    return 0.0
+
+@fp.fpy
+def s_callee_store(xs: list[fp.Real], ys: list[fp.Real]):
+    m = [ys, ys]
+    t = h_store_row(m, xs)
+    return (m, t, m[0])
+
 # ----------------------------------------------------------------- constants
 
 @fp.fpy
@@ -486,13 +541,14 @@ ALL = [t_bind, t_bind_const, t_index_nested, t_slice, t_slice_flat, t_construct,
        v_ladder, v_ladder_ctx, v_real_arith, v_real_refined, v_loop, v_minmax, v_fixed, v_ops, v_nested_refine,
        v_while_refine,
        s_sizes, s_phi_sizes, s_grow, s_nested, s_ragged, s_assert, s_early_return, s_early_return_assert,
+       s_alias_store, s_alias_store_const, s_row_alias_store, s_direct_store, s_loop_alias_store, s_callee_store,
        c_signed_zero, c_signed_zero_loop, c_fold, c_declared, c_stochastic]
 
-NO_ALIAS_CHECK = {'t_call_ident'}
+NO_ALIAS_CHECK = {'t_call_ident', 's_callee_store'}   # sharing created by a callee: counted, not judged
 
 # deterministic reproductions of the findings this corpus was written around (always run, before the random inputs):
 # C13-F1 (+0/-0 merged at a phi), C13-F2 (list constant kept across a mutation through an alias / a callee),
-# C13-F3 (zip / assert after a conditional early return), C13-F5 (c_stochastic: no arguments, run repeatedly)
+# C13-F3 (zip / assert after a conditional early return), C13-F5 (c_stochastic: no arguments, run repeatedly), C13-F6 below
 FIXED = {
     'c_signed_zero': [(True,), (False,)],
     'c_signed_zero_loop': [(2.0,), (0.0,)],
@@ -502,4 +558,11 @@ FIXED = {
     'c_declared': [(5.0,)],
     's_early_return': [(1.0, [1.0, 2.0], [1.0, 2.0, 3.0]), (-1.0, [1.0, 2.0], [3.0, 4.0])],
     's_early_return_assert': [(1.0, [1.0]), (-1.0, [1.0, 2.0])],
+    # C13-F6 (a list of another length stored into a nested list through an alias / by a callee)
+    's_alias_store': [([1.0, 2.0], [3.0])],
+    's_alias_store_const': [(5.0,)],
+    's_row_alias_store': [([1.0, 2.0], [3.0])],
+    's_direct_store': [([1.0, 2.0], [3.0])],
+    's_loop_alias_store': [([1.0, 2.0], [3.0])],
+    's_callee_store': [([1.0, 2.0], [3.0])],
 }
